@@ -232,3 +232,77 @@ Lemma exact_pattern : forall name p, contains [42] p = false -> has_prefix [42] 
 Proof.
   intros name p Hc Hp Hs Ht He. unfold pattern_matches. now rewrite He, Ht, Hc, Hp, Hs.
 Qed.
+
+(* ---- reserved names apply to exact base names only ---- *)
+Lemma trim_left_noop : forall l, ~ In 42 l -> trim_left 42 l = l.
+Proof.
+  destruct l as [|x l]; intros H; cbn [trim_left]; [reflexivity|].
+  destruct (x =? 42) eqn:E; [|reflexivity].
+  apply N.eqb_eq in E. subst. exfalso. apply H. now left.
+Qed.
+
+Lemma trim_both_noop : forall l, ~ In 42 l -> trim_both 42 l = l.
+Proof.
+  intros l H. unfold trim_both, trim_right. rewrite (trim_left_noop l H).
+  rewrite trim_left_noop; [apply rev_involutive|]. intros Hin. apply H. now apply in_rev.
+Qed.
+
+Lemma bytes_eqb_eq : forall a b, bytes_eqb a b = true <-> a = b.
+Proof.
+  induction a as [|x a IH]; intros [|y b]; cbn [bytes_eqb]; split; intros H; try reflexivity; try discriminate.
+  - apply andb_true_iff in H as [H1 H2]. apply N.eqb_eq in H1. apply IH in H2. now subst.
+  - inversion H; subst. rewrite N.eqb_refl. now apply IH.
+Qed.
+
+Lemma has_prefix_star_false : forall p, ~ In 42 p -> has_prefix [42] p = false.
+Proof.
+  intros [|x p] H; unfold has_prefix; cbn [prefix_of]; [reflexivity|].
+  destruct (42 =? x) eqn:E; [|reflexivity]. apply N.eqb_eq in E. subst. exfalso. apply H. now left.
+Qed.
+
+Lemma drop_In : forall {A} n (l : list A) x, In x (drop n l) -> In x l.
+Proof.
+  induction n as [|n IH]; intros l x H; [exact H|]. destruct l as [|y l]; [inversion H|].
+  right. now apply IH.
+Qed.
+
+Lemma has_suffix_star_false : forall p, ~ In 42 p -> has_suffix [42] p = false.
+Proof.
+  intros p H. unfold has_suffix. destruct (Nat.ltb (length p) (length [42])); [reflexivity|].
+  destruct (bytes_eqb [42] (drop (length p - length [42]) p)) eqn:E; [|reflexivity].
+  apply bytes_eqb_eq in E. exfalso. apply H. apply (drop_In (length p - length [42]) p). rewrite <- E. now left.
+Qed.
+
+(* a pattern without any wildcard matches exactly the names equal to it *)
+Lemma plain_pattern_exact : forall name p, ~ In 42 p ->
+  pattern_matches name p = Ok (bytes_eqb name p).
+Proof.
+  intros name p H. unfold pattern_matches.
+  assert (E1 : bytes_eqb p [42] = false).
+  { destruct (bytes_eqb p [42]) eqn:E; [|reflexivity]. apply bytes_eqb_eq in E. subst. exfalso. apply H. now left. }
+  rewrite E1, (trim_both_noop p H).
+  assert (E2 : contains [42] p = false).
+  { destruct (contains [42] p) eqn:E; [|reflexivity]. apply contains_star_In in E. contradiction. }
+  now rewrite E2, (has_prefix_star_false p H), (has_suffix_star_false p H).
+Qed.
+
+Lemma plain_patterns_exact : forall name ps, (forall p, In p ps -> ~ In 42 p) ->
+  patterns_match name ps = Ok (existsb (bytes_eqb name) ps).
+Proof.
+  induction ps as [|p ps IH]; intros H; cbn [patterns_match existsb]; [reflexivity|].
+  rewrite (plain_pattern_exact name p (H p (or_introl eq_refl))).
+  destruct (bytes_eqb name p); [reflexivity|]. apply IH. intros q Hq. apply H. now right.
+Qed.
+
+(* for every row of a wildcard-free table: the name predicate holds iff the path is non-empty and
+   its BASE NAME equals one of the row's patterns *)
+Theorem matches_name_exact : forall t r name, no_wildcards t = true -> In r t ->
+  matches_name r name =
+    Ok (match name with [] => false | _ => existsb (bytes_eqb (basename name)) (r_patterns r) end).
+Proof.
+  intros t r name Hw Hin. unfold matches_name. destruct name as [|c name]; [reflexivity|].
+  apply plain_patterns_exact. intros p Hp Hstar.
+  unfold no_wildcards in Hw. rewrite forallb_forall in Hw. specialize (Hw r Hin).
+  rewrite forallb_forall in Hw. specialize (Hw p Hp). apply negb_true_iff in Hw.
+  apply contains_star_In in Hstar. congruence.
+Qed.
